@@ -56,7 +56,7 @@ def case_s():
         st.fixed_dictionaries({"op": st.just("mutate"), "of": st.integers(0, 50), "mut": mutation_s()}),
         st.fixed_dictionaries({"op": st.just("mutate"), "of": st.integers(0, 50), "mut": mutation_s()}),
         st.fixed_dictionaries({"op": st.just("forge"), "kind": st.sampled_from(FORGE), "inner": st.sampled_from(["shb", "gbc"]), "psid": st.sampled_from([36, 37, 638, 999])}),
-        st.fixed_dictionaries({"op": st.just("unsecured"), "inner": st.sampled_from(["shb", "gbc", "beacon"])}),
+        st.fixed_dictionaries({"op": st.just("unsecured"), "inner": st.sampled_from(["shb", "gbc", "beacon", "tsb", "guc"]), "bnh": st.sampled_from([1, 1, 0, 0, 3, 9, 15])}),
         st.fixed_dictionaries({"op": st.just("replay"), "of": st.integers(0, 50)}),
     )
     return st.fixed_dictionaries({"preload": st.booleans(), "steps": st.lists(step, min_size=1, max_size=30)})
@@ -385,7 +385,14 @@ def run_case(case):
                 kw = dict(so=so, payload=b"" if k == "beacon" else rc.build_btp(2001, 0) + b"unsecured")
                 if k == "gbc":
                     kw.update(sn=9, rhl=2, mhl=2, area={"lat": 413000500, "lon": 21000500, "a": 800, "b": 800, "angle": 0, "shape": 0})
+                elif k == "tsb":
+                    kw.update(sn=10, rhl=2, mhl=2)
+                elif k == "guc":
+                    kw.update(sn=11, rhl=2, mhl=2, de={"addr": addr_bytes(RX), "tst": 0, "lat": 413000000, "lon": 21000000})
+                # the basic-header next-header field names no security envelope: COMMON (1), ANY (0) or a reserved value
+                kw["bnh"] = stp.get("bnh", 1)
                 dl, ok = feed(world, rc.build_packet(k, **kw), "unsecured", vs, state)
+                labels.add("unsecured-nh:%d" % kw["bnh"])
                 labels.add("unsecured:%s" % ("delivered" if dl else "refused"))
             if vs:
                 break
